@@ -54,7 +54,7 @@ Definition spec_step (acc : hmap * Z * Z * Z) (e : went) : hmap * Z * Z * Z :=
   (fold_left (fun h x => hadd low x h) (split_byte 0 v) h,
    match hget low h with Some _ => 11 | None => er end,
    u32 (hl + blen low + blen v),
-   zmax (zmax (zmax mx 4) (blen low)) (blen v)).
+   zmax (zmax (zmax mx 4) (zmin (blen low) 4096)) (zmin (blen v) 4096)).
 
 Lemma blen_range (l : bytes) : 0 <= blen l.
 Proof. unfold blen. lia. Qed.
@@ -116,24 +116,61 @@ Lemma Ix_roundtrip_lemma :
   parse_block rd_plain (write_block w_Ix) = PDone [([73; 120], [[118]])] 7 0 [] 4.
 Proof. vm_compute. repeat split; reflexivity. Qed.
 
-(* a 12-byte block: one header whose name length field says 2^26 *)
+(* a 12-byte block: one header whose name length field says 2^26.  Before the fix the parser asked for a
+   2^26-byte buffer; now it asks for one 4096-byte chunk and fails on the missing data. *)
 Definition w_alloc : bytes := [0;0;0;1; 4;0;0;0; 97;98;99;100].
-Lemma alloc_refuted_lemma :
-  exists c s, parse_block rd_plain w_alloc = PIo c s (2^26) /\ blen w_alloc = 12.
+Lemma alloc_example_lemma :
+  exists c s, parse_block rd_plain w_alloc = PIo c s 4096 /\ blen w_alloc = 12.
 Proof. eexists. eexists. vm_compute. split; reflexivity. Qed.
 
-(* RST_STREAM declaring length 12 (4 bytes more than its fixed body) followed by a PING:
-   the RST_STREAM frame is returned after 16 bytes, not 8+12, and the next frame is read from the middle *)
+(* allocation bound, for ANY reader (plain bytes or the header decompressor) and ANY input: every buffer the
+   block parser asks for has at most 4096 bytes *)
+Lemma zmax_le a b c : a <= c -> b <= c -> zmax a b <= c.
+Proof. unfold zmax. destruct (a <? b); lia. Qed.
+Lemma zmin_4096 a : zmin a 4096 <= 4096.
+Proof. unfold zmin. destruct (a <? 4096) eqn:E; [apply Z.ltb_lt in E; lia|lia]. Qed.
+Definition mx_of {T} (r : pres T) : Z :=
+  match r with PIo _ _ m => m | PDone _ _ _ _ m => m | _ => 0 end.
+Section AllocBound.
+  Context {T : Type} (rd : Z -> T -> rres T).
+  Lemma parse_entries_mx n : forall s h e hl mx, mx <= 4096 -> mx_of (parse_entries rd n s h e hl mx) <= 4096.
+  Proof.
+    induction n as [|n IH]; intros s h e hl mx Hm; cbn [parse_entries]; [exact Hm|].
+    assert (H4 : zmax mx 4 <= 4096) by (apply zmax_le; lia).
+    destruct (rd 4 s) as [lb s1|c s1|]; [|exact H4|simpl; lia].
+    pose proof (zmin_4096 (dec32 lb)) as Hl.
+    assert (H5 : zmax (zmax mx 4) (zmin (dec32 lb) 4096) <= 4096) by (apply zmax_le; assumption).
+    destruct (rd (dec32 lb) s1) as [name s2|c s2|]; [|exact H5|simpl; lia].
+    destruct (go_lower name) as [low|]; [|simpl; lia].
+    destruct (rd 4 s2) as [vb s3|c s3|]; [|exact H5|simpl; lia].
+    pose proof (zmin_4096 (dec32 vb)) as Hv.
+    assert (H6 : zmax (zmax (zmax mx 4) (zmin (dec32 lb) 4096)) (zmin (dec32 vb) 4096) <= 4096) by (apply zmax_le; assumption).
+    destruct (rd (dec32 vb) s3) as [value s4|c s4|]; [|exact H6|simpl; lia].
+    apply IH. exact H6.
+  Qed.
+  Lemma parse_block_mx s : mx_of (parse_block rd s) <= 4096.
+  Proof.
+    unfold parse_block. destruct (rd 4 s) as [nb s1|c s1|]; [|simpl; lia|simpl; lia].
+    destruct (1024 <? dec32 nb); [simpl; lia|].
+    pose proof (parse_entries_mx (Z.to_nat (dec32 nb)) s1 [] 0 0 4 ltac:(lia)) as H.
+    destruct (parse_entries rd (Z.to_nat (dec32 nb)) s1 [] 0 0 4) as [c s2 m|h hl e s2 m| |]; simpl in *; try lia.
+    destruct (e =? 0); simpl; exact H.
+  Qed.
+End AllocBound.
+
+(* RST_STREAM declaring length 12 (4 bytes more than its fixed body) followed by a PING: before the fix the
+   frame was returned after 16 bytes and the next frame was read from the middle; now it is refused. *)
 Definition w_bound : bytes :=
   [128;3;0;3; 0;0;0;12; 0;0;0;1; 0;0;0;5; 1;2;3;4;   128;3;0;6; 0;0;0;4; 0;0;0;7].
-Lemma boundaries_refuted_lemma :
-  hd (VZ 0) (read_stream 8 (init_state w_bound [])) = VL [VL [VZ 3; VZ 3; VZ 0; VZ 12; VZ 1; VZ 5]; VZ 16]
-  /\ bounds_ok w_bound 0 (read_stream 8 (init_state w_bound [])) = false.
-Proof. vm_compute. split; reflexivity. Qed.
-(* SYN_STREAM with length 4: the limit handed to the decompressor is uint32(4 - 10) *)
+Lemma bound_example_lemma :
+  read_stream 8 (init_state w_bound []) = [VL [v_serr 14 0; VZ 8]].
+Proof. vm_compute. reflexivity. Qed.
+(* SYN_STREAM with length 4: before the fix the limit handed to the decompressor was uint32(4 - 10) *)
 Lemma underflow_lemma : u32 (4 - 10) = 4294967290.
 Proof. reflexivity. Qed.
-
+Definition w_short : bytes := [128;3;0;1; 0;0;0;4; 0;0;0;1;  128;3;0;6; 0;0;0;4; 0;0;0;7].
+Lemma short_example_lemma : read_stream 8 (init_state w_short []) = [VL [v_serr 14 0; VZ 8]].
+Proof. vm_compute. reflexivity. Qed.
 
 (* non-vacuity: "Accept-Encoding: gzip, deflate", ":path: /" and the non-ASCII but length-stable name "é" *)
 Definition w_ok : list went :=
@@ -296,3 +333,192 @@ Qed.
 Lemma control_length_wraps : lenword 0 (2^24) / 2^24 = 1 /\ lenword 0 (2^24) mod 2^24 = 0
   /\ lenword 0 (u32 (2097152 * 8 + 4)) / 2^24 = 1.
 Proof. vm_compute. repeat split; reflexivity. Qed.
+
+(* =====================================================================================
+   Frame boundaries: every frame ReadFrame returns has consumed exactly 8 + length bytes
+   ===================================================================================== *)
+Definition sfx (w : bytes) (st : fstate) : Prop :=
+  0 <= off st /\ wire st = skipn (Z.to_nat (off st)) w.
+
+Lemma nth_skipn_add {A} n : forall i (l : list A) d, nth i (skipn n l) d = nth (n + i) l d.
+Proof.
+  induction n as [|n IH]; intros i l d; [reflexivity|].
+  destruct l as [|x l]; [destruct i; reflexivity|]. simpl. apply IH.
+Qed.
+Lemma skipn_skipn' {A} a : forall b (l : list A), skipn a (skipn b l) = skipn (b + a) l.
+Proof.
+  intros b. induction b as [|b IH]; intros l; [reflexivity|].
+  destruct l as [|x l]; [destruct a; reflexivity|]. simpl. apply IH.
+Qed.
+Lemma skipn_Z (w : bytes) o k : 0 <= o -> 0 <= k ->
+  skipn (Z.to_nat k) (skipn (Z.to_nat o) w) = skipn (Z.to_nat (o + k)) w.
+Proof.
+  intros Ho Hk. rewrite skipn_skipn'. f_equal. rewrite Z2Nat.inj_add by lia. reflexivity.
+Qed.
+
+(* a successful rd_wire advances the offset by the bytes delivered and keeps everything else *)
+Lemma rd_wire_ok w k st b st' :
+  sfx w st -> rd_wire k st = ROk b st' ->
+  sfx w st' /\ off st' = off st + Z.max 0 k /\ b = firstn (Z.to_nat k) (wire st) /\
+  chunks st' = chunks st /\ nexti st' = nexti st /\ pend st' = pend st /\ zerr st' = zerr st /\
+  zinit st' = zinit st /\ lim st' = lim st /\ Z.max 0 k <= blen (wire st).
+Proof.
+  intros [Ho Hw] H. unfold rd_wire in H.
+  destruct (k <=? 0) eqn:Ek.
+  - inversion H; subst. apply Z.leb_le in Ek.
+    replace (Z.max 0 k) with 0 by lia. replace (Z.to_nat k) with 0%nat by lia.
+    split; [split; assumption|]. split; [lia|]. split; [reflexivity|].
+    repeat (split; [reflexivity|]). unfold blen. lia.
+  - apply Z.leb_gt in Ek. destruct (wire st) as [|x r] eqn:Ew; [discriminate|].
+    destruct (k <=? blen (x :: r)) eqn:El; [|discriminate]. apply Z.leb_le in El.
+    inversion H; subst. replace (Z.max 0 k) with k by lia.
+    split. { split; [simpl; lia | simpl; rewrite Hw; apply skipn_Z; lia]. }
+    split; [reflexivity|]. split; [reflexivity|].
+    repeat (split; [reflexivity|]). exact El.
+Qed.
+(* the 4-byte case, with the bytes named *)
+Lemma rd_wire4_inv w st b st' :
+  sfx w st -> rd_wire 4 st = ROk b st' ->
+  exists a1 a2 a3 a4 r, wire st = a1 :: a2 :: a3 :: a4 :: r /\ b = [a1; a2; a3; a4] /\ wire st' = r.
+Proof.
+  intros Hs H. unfold rd_wire in H. cbn [Z.leb Z.compare] in H.
+  destruct (wire st) as [|a1 [|a2 [|a3 [|a4 r]]]] eqn:Ew; try discriminate;
+    try (vm_compute in H; discriminate).
+  destruct (4 <=? blen (a1 :: a2 :: a3 :: a4 :: r)); [|discriminate].
+  inversion H; subst. simpl. exists a1, a2, a3, a4, r. repeat split.
+Qed.
+
+(* the header decompressor: wire offset + remaining limit is constant while a header block is parsed *)
+Definition dz (w : bytes) (K : Z) (st : fstate) : Prop := sfx w st /\ off st + lim st = K.
+
+Lemma slurp_ok w K st st' : dz w K st -> slurp st = Some st' -> dz w K st' /\ lim st' = 0.
+Proof.
+  intros [[Ho Hw] HK] H. unfold slurp in H.
+  destruct (find (fun c => c_off c =? off st) (chunks st)) as [c|]; [|discriminate].
+  destruct ((c_idx c =? nexti st) && (c_size c =? lim st) && (0 <? c_size c) && (c_size c <=? blen (wire st))) eqn:E; [|discriminate].
+  apply andb_true_iff in E. destruct E as [E E4]. apply andb_true_iff in E. destruct E as [E E3].
+  apply andb_true_iff in E. destruct E as [_ E2].
+  apply Z.eqb_eq in E2. apply Z.ltb_lt in E3. apply Z.leb_le in E4.
+  inversion H; subst. simpl. split; [|reflexivity]. split.
+  - split; [simpl; lia|]. simpl. rewrite Hw. apply skipn_Z; lia.
+  - simpl. lia.
+Qed.
+Lemma dz_set_pend w K st p z : dz w K st -> dz w K (set_pend st p z).
+Proof. intros H. exact H. Qed.
+Lemma zread_ok w K k st :
+  dz w K st ->
+  match zread k st with ROk _ s' => dz w K s' | RFail _ s' => dz w K s' | RDesync => True end.
+Proof.
+  intros H. unfold zread.
+  destruct (k <=? 0); [exact H|].
+  destruct (zerr st); [exact H|].
+  destruct (k <=? blen (pend st)); [apply dz_set_pend; exact H|].
+  destruct (lim st =? 0); [apply dz_set_pend; exact H|].
+  destruct (slurp st) as [st'|] eqn:Es; [|exact I].
+  destruct (slurp_ok w K st st' H Es) as [H' _].
+  destruct (k <=? blen (pend st')); apply dz_set_pend; exact H'.
+Qed.
+
+Section ParseInv.
+  Context {T : Type} (rd : Z -> T -> rres T) (P : T -> Prop).
+  Hypothesis Hrd : forall k s, P s ->
+    match rd k s with ROk _ s' => P s' | RFail _ s' => P s' | RDesync => True end.
+  Definition pres_P (r : pres T) : Prop :=
+    match r with PIo _ s _ => P s | PDone _ _ _ s _ => P s | _ => True end.
+  Lemma parse_entries_P n : forall s h e hl mx, P s -> pres_P (parse_entries rd n s h e hl mx).
+  Proof.
+    induction n as [|n IH]; intros s h e hl mx Hs; cbn [parse_entries]; [exact Hs|].
+    pose proof (Hrd 4 s Hs) as H1. destruct (rd 4 s) as [lb s1|c s1|]; [|exact H1|exact I].
+    pose proof (Hrd (dec32 lb) s1 H1) as H2. destruct (rd (dec32 lb) s1) as [name s2|c s2|]; [|exact H2|exact I].
+    destruct (go_lower name) as [low|]; [|exact I].
+    pose proof (Hrd 4 s2 H2) as H3. destruct (rd 4 s2) as [vb s3|c s3|]; [|exact H3|exact I].
+    pose proof (Hrd (dec32 vb) s3 H3) as H4. destruct (rd (dec32 vb) s3) as [value s4|c s4|]; [|exact H4|exact I].
+    apply IH. exact H4.
+  Qed.
+  Lemma parse_block_P s : P s -> pres_P (parse_block rd s).
+  Proof.
+    intros Hs. unfold parse_block.
+    pose proof (Hrd 4 s Hs) as H1. destruct (rd 4 s) as [nb s1|c s1|]; [|exact H1|exact I].
+    destruct (1024 <? dec32 nb); [exact H1|].
+    pose proof (parse_entries_P (Z.to_nat (dec32 nb)) s1 [] 0 0 4 H1) as H.
+    destruct (parse_entries rd (Z.to_nat (dec32 nb)) s1 [] 0 0 4) as [c s2 m|h hl e s2 m| |]; try exact H; try exact I.
+    destruct (e =? 0); exact H.
+  Qed.
+End ParseInv.
+
+Lemma uncork_ok w st n st1 :
+  sfx w st -> uncork n st = inr (Some st1) -> dz w (off st + n) st1.
+Proof.
+  intros Hs H. unfold uncork in H.
+  destruct (zinit st).
+  - inversion H; subst. split; [exact Hs|reflexivity].
+  - destruct (n =? 0); [discriminate|]. inversion H as [H1].
+    assert (Hd : dz w (off st + n) (set_lim st n)) by (split; [exact Hs|reflexivity]).
+    destruct (slurp_ok w (off st + n) (set_lim st n) st1 Hd H1) as [H' _]. exact H'.
+Qed.
+
+Definition is_frame (v : val) : bool := match v with VL (VZ t :: _) => 0 <=? t | _ => false end.
+
+(* a header-bearing frame is returned only when the whole declared payload has been pulled from the wire *)
+Lemma header_part_ok w kind ver flags len sid fixed n st v st' :
+  sfx w st -> read_header_part kind ver flags len sid fixed n st = (v, st') -> is_frame v = true ->
+  0 <= kind -> sfx w st' /\ off st' = off st + n.
+Proof.
+  intros Hs H Hf Hk. unfold read_header_part in H.
+  destruct (uncork n st) as [c|[st1|]] eqn:Eu; try (inversion H; subst; discriminate).
+  pose proof (uncork_ok w st n st1 Hs Eu) as Hd.
+  pose proof (parse_block_P zread (dz w (off st + n)) (fun k s Hs0 => zread_ok w (off st + n) k s Hs0) st1 Hd) as HP.
+  destruct (parse_block zread st1) as [c st2 m|h hl e st2 m| |]; try (inversion H; subst; discriminate).
+  - destruct (((c =? 1) && (lim st2 =? 0)) || negb (lim st2 =? 0)); inversion H; subst; discriminate.
+  - simpl in HP. destruct (lim st2 =? 0) eqn:El; cbn [negb] in H; [|inversion H; subst; discriminate].
+    apply Z.eqb_eq in El. destruct HP as [Hs2 HK].
+    destruct (negb (e =? 0)); [inversion H; subst; discriminate|].
+    match type of H with (if ?b then _ else _) = _ => destruct b end; [inversion H; subst; discriminate|].
+    match type of H with (if ?b then _ else _) = _ => destruct b end; [inversion H; subst; discriminate|].
+    destruct (sid =? 0); [inversion H; subst; discriminate|].
+    inversion H; subst. split; [exact Hs2|lia].
+Qed.
+
+Lemma read_settings_ok w n : forall st acc l st',
+  sfx w st -> read_settings n st acc = inr (l, st') -> sfx w st' /\ off st' = off st + 8 * Z.of_nat n.
+Proof.
+  induction n as [|n IH]; intros st acc l st' Hs H; cbn [read_settings] in H.
+  - inversion H; subst. split; [exact Hs|lia].
+  - destruct (rd_wire 4 st) as [b1 s1|c s1|] eqn:E1; try discriminate.
+    destruct (rd_wire_ok w 4 st b1 s1 Hs E1) as (Hs1 & Ho1 & _).
+    destruct (rd_wire 4 s1) as [b2 s2|c s2|] eqn:E2; try discriminate.
+    destruct (rd_wire_ok w 4 s1 b2 s2 Hs1 E2) as (Hs2 & Ho2 & _).
+    destruct (IH _ _ _ _ Hs2 H) as [Hs' Ho']. split; [exact Hs'|]. lia.
+Qed.
+
+Lemma wf_in (w : bytes) x : wf_bytes w = true -> In x w -> 0 <= x < 256.
+Proof.
+  intros Hw Hi. unfold wf_bytes in Hw. rewrite forallb_forall in Hw. specialize (Hw x Hi).
+  unfold wf_byte in Hw. apply andb_true_iff in Hw. destruct Hw as [H1 H2].
+  apply Z.leb_le in H1. apply Z.ltb_lt in H2. lia.
+Qed.
+Lemma in_skipn {A} n : forall (l : list A) x, In x (skipn n l) -> In x l.
+Proof.
+  induction n as [|n IH]; intros l x H; [exact H|]. destruct l as [|y l]; [destruct H|]. right. apply IH. exact H.
+Qed.
+(* the length field of the frame that starts at the reader's position *)
+Lemma hdr_len_at w st a1 a2 a3 a4 b1 b2 b3 b4 r :
+  sfx w st -> wf_bytes w = true -> wire st = a1 :: a2 :: a3 :: a4 :: b1 :: b2 :: b3 :: b4 :: r ->
+  hdr_len w (off st) = Some (dec32 [b1; b2; b3; b4] mod 2^24).
+Proof.
+  intros [Ho Hw] Hwf Hwire. unfold hdr_len.
+  assert (Hlen : off st + 8 <= blen w).
+  { assert (Hl : length (skipn (Z.to_nat (off st)) w) = (8 + length r)%nat) by (rewrite <- Hw, Hwire; reflexivity).
+    rewrite skipn_length in Hl. unfold blen. lia. }
+  assert (E : (0 <=? off st) && (off st + 8 <=? blen w) = true).
+  { apply andb_true_iff. split; [apply Z.leb_le; lia|apply Z.leb_le; exact Hlen]. }
+  rewrite E. f_equal.
+  rewrite <- !(nth_skipn_add (Z.to_nat (off st))). rewrite <- Hw, Hwire. cbn [nth].
+  assert (Hin : forall x, In x [b2; b3; b4] -> 0 <= x < 256).
+  { intros x Hx. apply (wf_in w x Hwf). apply (in_skipn (Z.to_nat (off st))). rewrite <- Hw, Hwire.
+    simpl in Hx. simpl. tauto. }
+  pose proof (Hin b2 ltac:(simpl; tauto)). pose proof (Hin b3 ltac:(simpl; tauto)). pose proof (Hin b4 ltac:(simpl; tauto)).
+  unfold dec32, of_be32. change (2^24) with 16777216. change (2^16) with 65536. change (2^8) with 256.
+  replace (b1 * 16777216 + b2 * 65536 + b3 * 256 + b4) with ((b2 * 65536 + b3 * 256 + b4) + b1 * 16777216) by lia.
+  rewrite Z.mod_add by lia. rewrite Z.mod_small by lia. reflexivity.
+Qed.
